@@ -23,7 +23,8 @@ for prop in sys.argv[1:]:
             if r['model'] == 'HANG' or not spec['relevant'](r): continue
             v = r['f'].get(col, 'na'); cls = r['f'].get(clscol, '-')
             if v.startswith('rej'):
-                n = int(r['seq'].rsplit('.', 1)[1])
+                import re as _re
+                n = int(_re.sub(r'\D', '', r['seq'].rsplit('.', 1)[-1]) or 0)
                 if cls not in best or n < best[cls][0]:
                     best[cls] = (n, r)
         for cls, (n, r) in best.items():
@@ -31,7 +32,7 @@ for prop in sys.argv[1:]:
             pred = lambda x, cls=cls: x['f'].get(col, 'na').startswith('rej') and x['f'].get(clscol) == cls
             seq = vlib.shrink(cx, work, suite, seq, pred, budget=80)
             rr = vlib.replay_seq(cx, work, suite, seq, 'final')
-            res[cls] = dict(suite=suite, seq=seq, ops=[vlib.pretty_cmd(vlib.unx('x' + a) for a in []) if False else ' '.join(bytes.fromhex(a).decode('latin1') for a in o.get('cmd', [])) + (' [+%dms]' % o['adv'] if o.get('adv') else '') for o in seq['ops']],
+            res[cls] = dict(suite=suite, seq=seq, ops=([' '.join(bytes.fromhex(a).decode('latin1') for a in o.get('cmd', [])) + (' [+%dms]' % o['adv'] if o.get('adv') else '') + (' @conn%d' % o['conn'] if o.get('conn', -1) >= 0 else '') for o in seq['ops']] if 'ops' in seq else [json.dumps(seq.get('z'))[:400]]),
                             last=dict(reply=rr[-1]['kind'] + ':' + repr(rr[-1]['payload'][:60]), verdict=rr[-1]['f'].get(col)))
     out[prop] = res
 shutil.rmtree(work, ignore_errors=True)
